@@ -455,6 +455,9 @@ def run_case_c12(ops, rng, stats, m, cap=70):
             cmp3(P, 'get_hpins(%s %s)' % (k, t), 'C12|get_hpins|%s' % k, raw, hw.parse_hrefs(ans[j]), E.expected_hpins_of(t))
             j += 1
             stats['trace:get_hpins/%s' % k] += 1
+        # -- every kind of root, collections of roots, recursive, patterns (Hier/TraceRoots.v)
+        if not P:
+            run_roots(P, w, n, nl, E, rng, stats, m, light=(cap < 70))
         # -- history after the queries (a third of the netlists): one pin is taken off a wire and another, so far
         #    unconnected, pin of the same cell is put on it - the wire has as many pins as before - and the tracing
         #    questions are asked again from members of the nets: whatever a query remembers about a wire it walked
@@ -499,6 +502,132 @@ def run_case_c12(ops, rng, stats, m, cap=70):
         return P
     finally:
         w.close()
+
+
+# ------------------------------------------------------------------ collections of roots (Hier/TraceRoots.v)
+def _pat_tok(p):
+    return ','.join(str(ord(c)) for c in p) if p else '-'
+
+
+def run_roots(P, w, n, nl, E, rng, stats, m, light=False):
+    """get_hwires / get_hcables / get_hpins / get_hports with every kind of root, and with collections of several
+    roots: instance references, the netlist, libraries, definitions, instances, plain ports / cables / pins /
+    wires / outer pins; recursive on/off, the four selections, patterns. Model (get_h*_roots of Hier/TraceRoots.v)
+    and implementation are compared as MULTISETS (sorted lists: the code iterates over Python sets - hpin_search,
+    set(get_all_hrefs_of_instances) - so the yield order is not a function of the design; a reference yielded twice
+    would differ). The oracle (pattern '*' only; what a pattern selects is C13's filter clause) is the union of the
+    per-root expectations."""
+    D = hier_oracles.Design(w)
+    single = len(D.by_netlist) == 1 and D.by_netlist[0][0] == n
+    top = E.paths[0]
+
+    # ---- candidate roots: (token, python object, class, list of start tuples it stands for)
+    cands = []
+    for t in sample(rng, E.paths, 3 if light else 6):
+        cands.append(('H' + hw.tok(t), hw.href_of(w, t), 'HRef-inst', [t]))
+    cands.append(('X%d' % n, nl, 'Netlist', [top]))
+    for k in ('wire', 'pin', 'cable', 'port'):
+        for t in sample(rng, E.by_kind[k], 1 if light else 2):
+            cands.append(('H' + hw.tok(t), hw.href_of(w, t), 'HRef-' + k, [t]))
+    if single:
+        plain = [(i, o) for i, o in enumerate(w.objs)
+                 if isinstance(o, (sdn.ir.Library, sdn.ir.Definition, sdn.ir.Instance, sdn.ir.Port, sdn.ir.Cable,
+                                   sdn.ir.InnerPin, sdn.ir.Wire))]
+        for i, o in sample(rng, plain, 6 if light else 12):
+            if isinstance(o, sdn.ir.Library):
+                occ = sorted(set(p for d in o.definitions for p in D.occurrences(d)))
+            else:
+                occ = D.occurrences(o)
+            cands.append(('X%d' % i, o, type(o).__name__, occ))
+        outers = [(i, o, ip, op) for i, o in enumerate(w.objs) if isinstance(o, sdn.ir.Instance) for ip, op in o.pins.items()]
+        for i, o, ip, op in sample(rng, outers, 2):
+            cands.append(('O%d.%d' % (i, w.index[id(ip)]), op, 'OuterPin', D.occurrences(op)))
+
+    def exp_one(fn, starts, s, r):
+        out = set()
+        for t in starts:
+            if t not in E.valid:
+                return None
+            inst = E.kind_of(t) == 'inst'
+            if fn in ('get_hwires', 'get_hcables'):
+                ws = E.expected_hwires_inst(t, s, r) if inst else E.expected_hwires(t, s)
+                out.update(ws if fn == 'get_hwires' else [h[:-1] for h in ws])
+            elif fn == 'get_hpins':
+                out.update(E.expected_below('pin', t, r) if inst else E.expected_hpins_of(t))
+            else:
+                out.update(E.expected_below('port', t, r) if inst else [h[:-1] for h in E.expected_hpins_of(t)])
+        return out
+
+    # ---- the questions: every single root, then some collections of 2-4 roots
+    groups = [[c] for c in cands]
+    for _ in range(3 if light else 8):
+        groups.append([rng.choice(cands) for _ in range(rng.randint(2, 4))])
+    # names to build patterns from: the references of the whole design
+    names = []
+    try:
+        names = sorted(set(h.name for h in sdn.get_hwires(nl, recursive=True)) | set(h.name for h in sdn.get_hpins(nl, recursive=True)))
+    except Exception:  # noqa
+        names = []
+
+    def some_patterns():
+        ps = []
+        for _ in range(rng.randint(1, 2)):
+            nm = rng.choice(names) if names else 'a'
+            tail = nm.split('/')[-1]
+            ps.append(rng.choice([nm, tail, '*' + tail, tail[:2] + '*', '*/' + tail, nm[:max(1, len(nm) // 2)] + '*', '*', '?' + tail[1:]]))
+        return ps
+
+    FNS = (('get_hwires', sdn.get_hwires, 'hwires', True), ('get_hcables', sdn.get_hcables, 'hcables', True),
+           ('get_hpins', sdn.get_hpins, 'hpins', False), ('get_hports', sdn.get_hports, 'hports', False))
+    plan = []
+    for g in groups:
+        for name, f, q, has_sel in FNS:
+            if len(g) == 1:
+                combos = [(s, r) for s in (SELS if has_sel else ('INSIDE',)) for r in (0, 1)]
+                if light or not g[0][2].startswith('HRef-inst'):
+                    combos = sample(rng, combos, 3)
+            else:
+                combos = [(rng.choice(SELS) if has_sel else 'INSIDE', rng.randint(0, 1)) for _ in range(2)]
+            for s, r in combos:
+                plan.append((g, name, f, q, has_sel, s, r, None))
+                if rng.random() < 0.5:
+                    plan.append((g, name, f, q, has_sel, s, r, some_patterns()))
+    ans = m.ask(['roots %s %d %s %d %s %s' % (q, n, s, r, ';'.join(_pat_tok(x) for x in (pats or ['*'])),
+                                              ' '.join(c[0] for c in g)) for g, name, f, q, has_sel, s, r, pats in plan])
+    for (g, name, f, q, has_sel, s, r, pats), a in zip(plan, ans):
+        kw = {'recursive': bool(r)}
+        if has_sel:
+            kw['selection'] = hw.SEL[s] if rng.random() < 0.5 else s
+        objs = [c[1] for c in g] if len(g) > 1 or rng.random() < 0.5 else g[0][1]
+        try:
+            refs = list(f(objs, list(pats), **kw)) if pats is not None else list(f(objs, **kw))
+        except TypeError as e:   # a name that is not a string: str.join raises (outside the model's domain)
+            stats['roots:impl-raises-TypeError'] += 1
+            continue
+        raw = [hw.tup(w, x) for x in refs]
+        kinds = '+'.join(sorted(set(c[2] for c in g))) if len(g) > 1 else g[0][2]
+        shape = 'collection' if len(g) > 1 else g[0][2]
+        sig = 'C12|roots|%s|%s|%s' % (name, shape, (s if has_sel else '-') if pats is None else 'patterns')
+        if len(raw) != len(set(raw)):
+            P.add('oracle', sig + '|duplicate-reference', roots=[c[0] for c in g], selection=s, recursive=r)
+        exp = None
+        if pats is None:
+            parts = [exp_one(name, c[3], s, bool(r)) for c in g]
+            if all(x is not None for x in parts):
+                exp = sorted(set().union(*parts))
+        cmp3(P, '%s(%s, selection=%s, recursive=%d, patterns=%r)' % (name, [c[0] for c in g], s, r, pats), sig,
+             sorted(raw), hw.parse_hrefs(a), exp)
+        for x in refs:
+            if not x.is_valid:
+                P.add('oracle', 'C12|roots|%s|returns-invalid-reference' % name, roots=[c[0] for c in g])
+                break
+        stats['roots:%s/%s' % (name, shape)] += 1
+        stats['roots:patterns=%s' % ('default' if pats is None else 'given')] += 1
+        if pats is not None:
+            stats['roots:pattern-answer-%s' % ('empty' if not raw else 'nonempty')] += 1
+        if len(g) > 1:
+            stats['roots:collection-kinds:%s' % kinds] += 1
+        stats['answer-size'].append(len(raw))
 
 
 def net_shape(E, c):
